@@ -190,7 +190,7 @@ func runC05(c *Ctx) {
 		fn := cs.Parent()
 		pos := w.instrPos(cs)
 		p := cs.Common().Args[1]
-		switch fn.Name() {
+		switch nm(fn) {
 		case "handleSendIndication":
 			c.Anchor("C05.1", "Send to peer")
 			// p = *local proto.Data whose storage was filled by Data.GetFrom(stunMsg)==nil
@@ -408,7 +408,34 @@ func ruleInboundCopy(c *Ctx, rule string) {
 			bad = "inboundData.data is not set"
 			return
 		}
-		ms, isMS := stripIface(w.resolveLoad(d)).(*ssa.MakeSlice)
+		dv := stripIface(w.resolveLoad(d))
+		// fresh storage holding a copy of the argument, in any of its spellings
+		isFreshBase := func(v ssa.Value) bool {
+			v = stripIface(w.resolveLoad(v))
+			switch x := v.(type) {
+			case *ssa.MakeSlice:
+				return true
+			case *ssa.Const:
+				return x.Value == nil // nil slice
+			case *ssa.Slice:
+				_, isAl := x.X.(*ssa.Alloc) // []byte{} literal
+				return isAl
+			}
+			return false
+		}
+		if call, isCall := dv.(*ssa.Call); isCall {
+			// append(fresh, data...)
+			if b, isB := call.Call.Value.(*ssa.Builtin); isB && b.Name() == "append" && len(call.Call.Args) == 2 &&
+				isFreshBase(call.Call.Args[0]) && w.sameKey(call.Call.Args[1], fn.Params[1]) {
+				return
+			}
+			// bytes.Clone(data) / slices.Clone(data)
+			if cal := call.Call.StaticCallee(); cal != nil && (cal.String() == "bytes.Clone" || strings.HasPrefix(cal.String(), "slices.Clone")) &&
+				len(call.Call.Args) == 1 && w.sameKey(call.Call.Args[0], fn.Params[1]) {
+				return
+			}
+		}
+		ms, isMS := dv.(*ssa.MakeSlice)
 		if !isMS {
 			bad = "the queued payload " + w.key(d) + " is not a fresh slice: it aliases the caller's (reused) read buffer, later datagrams overwrite queued ones"
 			return
